@@ -52,13 +52,30 @@ Proof. exact row_uv. Qed.
    from.y <= y < to.y) are exactly the events crossing it - the lazy removal in
    update_sweep_line never drops an edge that still matters, and every edge starting at or
    above the row has been added *)
-Theorem C20_active_set : forall solve_x fadd fsub events uvx uvy offsets y act,
+(* Needs a monotone addition (true of Qplus and of exactly-rounded f32 addition): with an arbitrary
+   [fadd] the row height could fall back below the start of an already active edge -
+   [C20_active_set_counterexample] is the machine-checked refutation of the unrestricted statement. *)
+Theorem C20_active_set : forall solve_x fadd fsub,
+  (forall a o, 0 < o -> a <= fadd a o) ->
+  forall events uvx uvy offsets y act,
   StronglySorted (fun a b => pos_gt (fst a) (fst b) = false) events ->
   (forall e, In e events -> pos_gt (fst e) (snd e) = false) ->
   In (y, act) (hatch_rows solve_x fadd fsub events uvx uvy offsets) ->
   Permutation (filter (crosses y) act) (filter (crosses y) events)
   /\ (forall e, In e act -> negb (Qle_bool (py (snd e)) y) = true -> crosses y e = true).
-Proof. exact active_set. Qed.
+Proof. exact active_set_partial. Qed.
+
+(* the counterexample to the unrestricted statement, machine-checked *)
+Theorem C20_active_set_counterexample :
+  let fadd := fun a o : Q => if Qle_bool 1 a then - (1) else a + o in
+  let e : hedge := ((0, 0), (0, 10)) in
+  StronglySorted (fun a b => pos_gt (fst a) (fst b) = false) [e]
+  /\ (forall e', In e' [e] -> pos_gt (fst e') (snd e') = false)
+  /\ In (- (1), [e]) (hatch_rows exact_solve_x fadd Qminus [e] 0 0 [1; 1; 1])
+  /\ In e [e]
+  /\ negb (Qle_bool (py (snd e)) (- (1))) = true
+  /\ crosses (- (1)) e = false.
+Proof. exact active_set_counterexample. Qed.
 
 (* rows are spaced by the offsets the pattern returned: the k-th hatched row is at
    first.y + o_0 + ... + o_k (left fold of the addition), with row indices 0, 1, 2, ... *)
@@ -70,11 +87,31 @@ Proof. exact row_positions. Qed.
 (* geometry, with the exact abscissa: a point of a hatched row that is not at a crossing lies in
    one of the row's segments iff an odd number of the row's crossing edges are to its left,
    i.e. iff it is inside under the even-odd rule *)
-Theorem C20_row_even_odd : forall fsub y uvx uvy row act x,
+(* Stated in two forms.  A row crossed an odd number of times (which a closed path never does) leaves
+   an unpaired last crossing: [C20_row_even_odd_counterexample] refutes the plain iff there. *)
+(* proved when the row is crossed an even number of times (any closed path) *)
+Theorem C20_row_even_odd_closed : forall fsub y uvx uvy row act x,
+  Nat.even (length (filter (fun e => negb (Qle_bool (py (snd e)) y)) act)) = true ->
   (forall e, In e act -> negb (Qle_bool (py (snd e)) y) = true -> ~ exact_solve_x e y == x) ->
   (exists s, In s (snd (hatch_line exact_solve_x fsub y uvx uvy row act)) /\ hs_ax s < x /\ x < hs_bx s)
   <-> Nat.odd (length (filter (fun e => negb (Qle_bool (py (snd e)) y) && Qltb (exact_solve_x e y) x) act)) = true.
-Proof. exact row_even_odd. Qed.
+Proof. exact row_even_odd_partial. Qed.
+
+(* without the parity assumption: odd, and not to the right of an unpaired last crossing *)
+Theorem C20_row_even_odd : forall fsub y uvx uvy row act x,
+  (forall e, In e act -> negb (Qle_bool (py (snd e)) y) = true -> ~ exact_solve_x e y == x) ->
+  (exists s, In s (snd (hatch_line exact_solve_x fsub y uvx uvy row act)) /\ hs_ax s < x /\ x < hs_bx s)
+  <-> (Nat.odd (length (filter (fun e => negb (Qle_bool (py (snd e)) y) && Qltb (exact_solve_x e y) x) act)) = true
+       /\ (length (filter (fun e => negb (Qle_bool (py (snd e)) y) && Qltb (exact_solve_x e y) x) act)
+           < length (filter (fun e => negb (Qle_bool (py (snd e)) y)) act))%nat).
+Proof. exact row_even_odd_general. Qed.
+
+Theorem C20_row_even_odd_counterexample :
+  let act : list hedge := [((0, 0), (0, 10))] in let y := 5 in let x := 1 in
+  (forall e, In e act -> negb (Qle_bool (py (snd e)) y) = true -> ~ exact_solve_x e y == x)
+  /\ snd (hatch_line exact_solve_x Qminus y 0 0 0%Z act) = []
+  /\ Nat.odd (length (filter (fun e => negb (Qle_bool (py (snd e)) y) && Qltb (exact_solve_x e y) x) act)) = true.
+Proof. exact row_even_odd_counterexample. Qed.
 
 Example C20_example :
   (* a 4x4 square hatched with unit offsets: three rows (y = 1, 2, 3), one segment each *)
@@ -90,5 +127,8 @@ Print Assumptions C20_events_sorted.
 Print Assumptions C20_row_pairs.
 Print Assumptions C20_row_uv.
 Print Assumptions C20_active_set.
+Print Assumptions C20_active_set_counterexample.
 Print Assumptions C20_row_positions.
+Print Assumptions C20_row_even_odd_closed.
 Print Assumptions C20_row_even_odd.
+Print Assumptions C20_row_even_odd_counterexample.
